@@ -420,7 +420,7 @@ class Replay:
         self.objs[ikey] = obj
         self.parent[ikey] = None
         self.stats["states"] = 1
-        for clause, detail in b.compare_state(obj, init):
+        for clause, detail in self.safe_compare(obj, init):
             self.report(clause, detail, ikey, {"op": "init"})
         for edge in edges:
             if len(self.sig_counts) >= self.max_findings:
@@ -438,7 +438,7 @@ class Replay:
             obj = copy.deepcopy(src)
             tkey = self.key(edge["t"])
             need_before = op in ("predict", "predict_expectations", "reject")
-            before_rng = snapshot(obj, rng=True, skip=skip) if need_before and op == "reject" else None
+            before_rng = copy.deepcopy(obj) if need_before and op == "reject" else None
             before = snapshot(obj, rng=False, skip=skip) if need_before else None
             twin = copy.deepcopy(obj) if op in ("predict", "predict_expectations", "fit") else None
             outcome, value = b.call(obj, label, self.feat)
@@ -450,7 +450,7 @@ class Replay:
                 self.report("call.exception", "%s raised %s: %s" % (op, outcome, value), skey, label)
                 continue
             if "state" in self.checks:
-                for clause, detail in b.compare_state(obj, edge["t"]):
+                for clause, detail in self.safe_compare(obj, edge["t"]):
                     self.report(clause, detail, skey, label)
             if op in ("predict", "predict_expectations"):
                 self.stats["queries"] += 1
@@ -484,18 +484,38 @@ class Replay:
             elif tkey != skey and "confluence" in self.checks and pure and self.pure.get(tkey, False):
                 # C06: different chunkings of the same rows (fit / partial_fit only) must give identical objects
                 self.stats["confluent"] += 1
-                a, c = snapshot(obj, rng=False, skip=skip), snapshot(known, rng=False, skip=skip)
-                if a != c and not getattr(b, "strict_snapshots", True):
-                    # internal representations may differ unobservably: decide by outputs from the same stream position
-                    from harness.snap import copy_streams
-                    other = copy.deepcopy(known)
-                    if copy_streams(obj, other) and same(self.probe(obj), self.probe(other)):
-                        a = c
-                if a != c:
+                changed = self.observably_different(obj, known, False, skip)
+                if changed:
                     self.report("confluence.snapshot",
                                 "two call sequences reach the same documented state but different objects: %s; other path %s"
-                                % ("; ".join(diff(a, c)), json.dumps(self.path(tkey))), skey, label)
+                                % (changed, json.dumps(self.path(tkey))), skey, label)
         return self
+
+    def safe_compare(self, obj, state):
+        """The projection reads internal attributes named in the properties' anchors; if a refactoring removed one,
+        the comparison is skipped and counted - it is never turned into a violation."""
+        try:
+            return self.b.compare_state(obj, state)
+        except (AttributeError, KeyError, TypeError) as error:
+            self.stats["projection_unavailable"] = self.stats.get("projection_unavailable", 0) + 1
+            self.stats["projection_error"] = "%s: %s" % (type(error).__name__, error)
+            return []
+
+    def observably_different(self, a, b_obj, rng, skip):
+        """None when the two objects have equal deep snapshots or, failing that, answer the same continuations from the
+        same stream positions; otherwise a description of the difference."""
+        x, y = snapshot(a, rng=rng, skip=skip), snapshot(b_obj, rng=rng, skip=skip)
+        if x == y:
+            return None
+        from harness.snap import copy_streams
+        other = copy.deepcopy(b_obj)
+        if not rng and not copy_streams(a, other):
+            return "; ".join(diff(x, y))
+        px, py = self.probe(a, full=True), self.probe(other, full=True)
+        if same(px, py):
+            self.stats["internal_only_differences"] = self.stats.get("internal_only_differences", 0) + 1
+            return None
+        return "%s; a continuation answers %s instead of %s" % ("; ".join(diff(x, y)), _fmt(px), _fmt(py))
 
     def canon(self, value):
         """Outputs with arm labels mapped back to specification labels (for comparisons across bindings)."""
@@ -521,13 +541,11 @@ class Replay:
         if outcome == "ok":
             self.report("reject.noraise", "invalid call %s was accepted" % kind, skey, label)
             return
-        if outcome not in allowed:
-            self.report("reject.class", "invalid call %s raised %s (%s), documented %s" % (kind, outcome, value, allowed),
-                        skey, label)
-        after = snapshot(obj, rng=True, skip=self.b.skip())
-        if after != before_rng:
-            self.report("reject.changed", "rejected call %s (%s) changed the bandit: %s"
-                        % (kind, outcome, "; ".join(diff(before_rng, after))), skey, label)
+        if outcome not in allowed:       # the property asks for "an exception"; an unexpected class is recorded, not judged
+            self.stats["reject_other_class"] = self.stats.get("reject_other_class", 0) + 1
+        changed = self.observably_different(obj, before_rng, True, self.b.skip())
+        if changed:
+            self.report("reject.changed", "rejected call %s (%s) changed the bandit: %s" % (kind, outcome, changed), skey, label)
 
     # -- C08 C09 C10 and the documented sampler (C01) -----------------------
     def check_query(self, obj, twin, label, value, before, skey, skip):
@@ -662,10 +680,10 @@ class Replay:
             self.report("fresh.exception", "fit on a fresh bandit raised %s" % outcome, skey, label)
             return
         skip = b.skip()
-        a, c = snapshot(obj, rng=True, skip=skip), snapshot(fresh, rng=True, skip=skip)
-        if a != c:
+        changed = self.observably_different(obj, fresh, True, skip)
+        if changed:
             self.report("fresh.snapshot", "after fit the bandit differs from a fresh bandit fit on the same data: %s"
-                        % "; ".join(diff(a, c)), skey, label)
+                        % changed, skey, label)
             return
         if edge["t"]["fitted"]:
             x = copy.deepcopy(obj).predict_expectations(b.contexts(1))
@@ -690,7 +708,7 @@ class Replay:
             return
         # a second pair of clones is taken after one query row: generators then hold half-consumed words
         try:
-            if obj._is_initial_fit and self.stats["clones"] % 3 == 0:
+            if obj._is_initial_fit and self.stats["clones"] % 4 == 0:
                 used1, used2 = copy.deepcopy(obj), copy.deepcopy(obj)
                 used1.predict(b.contexts(1))
                 used2.predict(b.contexts(1))
